@@ -58,11 +58,14 @@ def DocumentedShape (s : Sig) : Prop :=
   (∀ i p, s.params[i]? = some p → Documented (effParam s i p)) ∧ ResultsDocumented s.results
 
 theorem check_ok_iff (kw : Bool) (s : Sig) (n : Bool) :
-    (checkNativeFunc kw (.func s n)).1 = .ok () ↔ kw = false ∧ DocumentedShape s := by
+    (checkNativeFunc kw (.func s n)).1 = .ok () ↔ kw = false ∧ n = false ∧ DocumentedShape s := by
   unfold checkNativeFunc DocumentedShape
   cases kw with
   | true => simp
   | false =>
+    cases n with
+    | true => simp
+    | false =>
     simp only [Bool.false_eq_true, if_false, true_and]
     have hp := checkParams_none s s.params 0
     have hr := checkResults_none s.results
